@@ -171,6 +171,72 @@ Proof.
   destruct (q c) as [|b r] eqn:Q; auto. right. exists b, r. simpl. auto.
 Qed.
 
+(** * A mirror connection's lifetime *)
+
+Lemma epoch_changes_only_on_reconnect e c :
+  epoch (env_step e c) <> epoch c ->
+  e = Reconnect /\ lnk c = Down /\ closed c = false /\ epoch (env_step e c) = S (epoch c).
+Proof.
+  unfold env_step. destruct (closed c) eqn:C; [intros H; exfalso; apply H; reflexivity|].
+  destruct e; simpl; intros H; try (exfalso; apply H; reflexivity).
+  - destruct (lnk c); [|exfalso; apply H; reflexivity]. destruct (q c); simpl in H; exfalso; apply H; reflexivity.
+  - destruct (lnk c); [|exfalso; apply H; reflexivity]. destruct (q c); simpl in H; exfalso; apply H; reflexivity.
+  - destruct (lnk c) eqn:L; simpl in *; [exfalso; apply H; reflexivity | auto].
+Qed.
+
+Lemma link_lost_only_by_failure e c :
+  lnk c = Up -> lnk (env_step e c) = Down -> is_failure e = true.
+Proof.
+  unfold env_step. destruct (closed c); [congruence|].
+  destruct e; simpl; intros U D; try reflexivity; try congruence.
+  - rewrite U in D. destruct (q c); simpl in D; congruence.
+  - rewrite U in D. simpl in D. congruence.
+Qed.
+
+Lemma offer_keeps_connection b c :
+  epoch (chan_step c (inl b)) = epoch c /\ lnk (chan_step c (inl b)) = lnk c /\ handed (chan_step c (inl b)) = handed c.
+Proof. simpl. destruct (unavailable c); simpl; auto. Qed.
+
+(** one continuous connection: the two states a channel can be in while nothing fails *)
+Definition one_conn (c : chan) : Prop :=
+  (lnk c = Down /\ epoch c = 0 /\ handed c = []) \/
+  (lnk c = Up /\ epoch c = 1 /\ Forall (fun x => fst x = 1) (handed c)).
+
+Lemma one_conn_step c x :
+  one_conn c -> (match x with inl _ => true | inr e => negb (is_failure e) end) = true -> one_conn (chan_step c x).
+Proof.
+  intros I NF. destruct x as [b|e].
+  - destruct (offer_keeps_connection b c) as [E [L H]]. unfold one_conn. rewrite E, L, H. exact I.
+  - simpl. unfold env_step. destruct (closed c); [exact I|].
+    destruct e; simpl in NF; try discriminate; try exact I.
+    + (* Deliver *)
+      destruct I as [[L [E H]]|[L [E H]]]; rewrite L.
+      * left. auto.
+      * destruct (q c) as [|b r]; [right; auto|]. right. simpl. repeat split; auto.
+        apply Forall_app. split; [assumption|]. constructor; [simpl; assumption | constructor].
+    + (* Reconnect *)
+      destruct I as [[L [E H]]|[L [E H]]]; rewrite L.
+      * right. simpl. rewrite E, H. repeat split; auto.
+      * right. auto.
+Qed.
+
+Lemma one_conn_run xs : forall c, one_conn c -> no_failure xs = true -> one_conn (fold_left chan_step xs c).
+Proof.
+  induction xs as [|x r IH]; intros c I NF; [exact I|].
+  simpl in NF. apply andb_true_iff in NF. destruct NF as [N1 N2].
+  simpl. apply IH; [apply one_conn_step; assumption | assumption].
+Qed.
+
+Lemma mirror_conn_lifetime xs ep b :
+  no_failure xs = true -> In (ep, b) (handed (fold_left chan_step xs new_chan)) ->
+  ep = 1 /\ epoch (fold_left chan_step xs new_chan) = 1.
+Proof.
+  intros NF HI. assert (I : one_conn new_chan) by (left; auto).
+  destruct (one_conn_run xs new_chan I NF) as [[_ [_ H]]|[_ [E H]]].
+  - rewrite H in HI. contradiction.
+  - split; [|assumption]. rewrite Forall_forall in H. exact (H (ep, b) HI).
+Qed.
+
 (** * One connection: the primary side does not depend on the mirrors *)
 
 Definition srv_send (s : srv) (be : bytes * bool) : srv := fst (fst (send s [] (fst be) (snd be))).
@@ -235,6 +301,24 @@ Proof.
     + apply Nat.eqb_eq in Q. subst i. rewrite run1_cons_env. apply IH.
       rewrite !nth_error_upd_nth_eq, E. reflexivity.
     + apply Nat.eqb_neq in Q. apply IH. rewrite nth_error_upd_nth_neq by auto. exact E.
+Qed.
+
+(** the channel of mirror j inside a run IS [chan_step] folded over what concerns it *)
+Definition view (j : nat) (o : op1) : list (bytes + env) :=
+  match o with Send1 b _ => [inl b] | Env1 i e => if i =? j then [inr e] else [] end.
+
+Lemma run1_chan_view ops : forall s m j,
+  nth_error (snd (fst (run1 (s, m) ops))) j =
+  option_map (fold_left chan_step (flat_map (view j) ops)) (nth_error m j).
+Proof.
+  induction ops as [|o r IH]; intros s m j.
+  - simpl. destruct (nth_error m j); reflexivity.
+  - destruct o as [b ok | i e].
+    + rewrite run1_cons_send. cbn [fst snd]. rewrite IH, mirror_send_nth.
+      simpl. destruct (nth_error m j); reflexivity.
+    + rewrite run1_cons_env, IH. simpl. destruct (i =? j) eqn:Q.
+      * apply Nat.eqb_eq in Q. subst i. rewrite nth_error_upd_nth_eq. simpl. destruct (nth_error m j); reflexivity.
+      * apply Nat.eqb_neq in Q. rewrite nth_error_upd_nth_neq by auto. reflexivity.
 Qed.
 
 (** every buffer passed to send appears in the primary trace, once, in order, unchanged *)
